@@ -643,3 +643,52 @@ def r18(ctx, P, rule='C10.18'):
                    'the value taken from the requested definition is remembered even when %s() rejects it (duplicate id, invalid parameters): later calls size their copies from a definition that is not in the file' % defs[0].callee,
                    w.render() if w else None)
     ctx.floor('definition-derived state in the threaded writer', n, 1)
+
+
+# --------------------------------------------------------------------------- C10.19
+
+def r19(ctx, P):
+    """realloc may free the old block: its non-NULL result is installed before the function can leave or allocate again"""
+    n = 0
+    for fn in P.all_functions():
+        for al in fn.calls('realloc'):
+            a0 = strip_casts(al.args[0])
+            if a0.get('op') != 'member':
+                continue
+            fld, rec = a0['field'], a0.get('rec')
+            # the local that receives the result
+            cid = al.e.get('id')
+            res = None
+            for ev in fn.stores():
+                lhs, rhs, o = ev.store_parts()
+                if rhs is not None and any(nd.get('id') == cid for nd in walk(rhs)) and strip_casts(lhs).get('op') == 'ref':
+                    res = strip_casts(lhs)['name']
+                    res_ev = ev
+            if res is None:
+                continue
+            n += 1
+            ctx.saw(fn, 1)
+
+            def on_event(e2, facts, res=res, fld=fld, rec=rec):
+                if e2.k == 'store':
+                    l2 = strip_casts(e2.store_parts()[0])
+                    r2 = e2.store_parts()[1]
+                    if l2.get('op') == 'member' and l2.get('field') == fld and l2.get('rec') == rec and r2 is not None and \
+                            strip_casts(r2).get('op') == 'ref' and strip_casts(r2).get('name') == res:
+                        return 'stop'
+                if e2.k == 'ret':
+                    return 'target'
+                if e2.k == 'call' and e2.callee in ('realloc', 'malloc', 'calloc') and e2 is not al:
+                    return None
+                # a use of the old pointer field while the result is not installed
+                if e2.e is not None and e2 is not res_ev:
+                    for nd in walk(e2.e):
+                        if nd.get('op') in ('sub', 'un') and any(m.get('op') == 'member' and m.get('field') == fld and m.get('rec') == rec for m in walk(nd)) and nd.get('op') == 'sub':
+                            return 'target'
+                return None
+            w = find_path(fn, res_ev, on_event, start_facts=frozenset([(res, 'ne', 0)]))
+            ctx.ob('C10.19', w is None, fn.name, 'realloc(%s) result %s is installed' % (show(a0), res), al.where(),
+                   'stored back into %s on every path on which it is not NULL' % show(a0) if w is None else
+                   'realloc succeeded (the old block may have been freed) but %s keeps the old pointer on a path to a return or to an element access: use after free when a second allocation of the same step fails' % show(a0),
+                   w.render() if w else None)
+    ctx.floor('realloc results assigned to locals', n, 2)
